@@ -678,6 +678,47 @@ def check_size_hint_steps(ctx, F):
         ctx.unresolved('R10', 'size_hint().0 decreases by one with every item next() yields', 'crate', 'only %d iterators with a custom size_hint found (5 confirmed by reading)' % n, key='R10/size-hint-step/floor')
 
 
+def check_uniform_table_extent(ctx, F):
+    """UniformModel: the iterated symbol table covers exactly the support 0 ..= last_symbol (what the encoder and decoder views
+    accept), i.e. it yields last_symbol + 1 entries starting at 0."""
+    key = 'R5/uniform-table-extent/stream::model::uniform::UniformModel'
+    role = 'symbol_table() of the uniform model yields exactly the symbols 0 ..= last_symbol'
+    bs = [b for b in F.bodies if b.promoted is None and b.name == 'symbol_table' and (b.self_adt or '').endswith('uniform::UniformModel')]
+    if not bs:
+        return ctx.unresolved('R5', role, 'stream::model::uniform', 'symbol_table not found', key=key)
+    b = bs[0]
+    ev, paths = rules.evaluate(b)
+    ctx.touch(b)
+    rs = [r for r in paths or [] if r.end == 'return']
+    if len(rs) != 1:
+        return ctx.unresolved('R5', role, b.defpath, 'several paths', key=key)
+    src = rs[0].ret
+    while src[0] == 'call' and src[1].endswith(('Iterator::map', 'into_iter')):
+        src = src[2][0]
+    last = lambda t: sym.contains(t, lambda x: isinstance(x, tuple) and x and x[0] == 'in' and x[1][-1] == ('f', 'last_symbol'))
+    inclusive = False
+    if src[0] == 'call' and str(src[1]).endswith('RangeInclusive::<Idx>::new') and len(src[2]) == 2:
+        inclusive = True                      # `a..=b` is built by RangeInclusive::new(a, b)
+        start, end = src[2]
+    elif src[0] == 'agg' and isinstance(src[1], tuple) and src[1][-1] in ('Range', 'RangeInclusive'):
+        inclusive = src[1][-1] != 'Range'
+        start, end = src[2][0], src[2][1]
+    else:
+        return ctx.unresolved('R5', role, b.defpath, 'iterator source is not a range: %s' % sym.show(src)[:80], key=key)
+    strip = lambda t: effects.rebuild(t, lambda n: n[2] if n and n[0] == 'cast' else None)
+    n_items = sym.affine(sym.mk_bin('Sub', strip(end), strip(start)))
+    if inclusive:
+        n_items = (n_items[0], n_items[1] + 1)
+    atoms = [(c, at) for k, (c, at) in n_items[0].items()]
+    if start != ('int', 0) or len(atoms) != 1 or atoms[0][0] != 1 or not last(atoms[0][1]):
+        return ctx.unresolved('R5', role, b.defpath, 'range bounds not recognised: %s' % sym.show(src)[:100], key=key)
+    if n_items[1] == 1:
+        ctx.ok('R5', role, b.defpath, 'iterates %s: last_symbol + 1 entries from 0' % sym.show(src)[:80], key=key)
+    else:
+        ctx.bad('R5', role, b.defpath, 'the table iterates %s, i.e. last_symbol %+d entries: %s; a model tabulated from it (to_generic_*_model, From<&M>) disagrees with the uniform model itself' % (
+            sym.show(src)[:80], n_items[1], 'it contains a symbol outside the support (accepted by the converted encoder model)' if n_items[1] > 1 else 'the last symbols of the support are missing'), key=key, loc=rules.loc(b))
+
+
 def check_conservative_preskip(ctx, F):
     """The lazy categorical decoder first skips symbols using float arithmetic only and then searches exactly.  The skip
     is sound iff every skipped symbol's right cumulative is <= quantile.  With right_cumulative(i) = as_(rcf_i * scale) +
@@ -758,6 +799,7 @@ def run(ctx):
     check_cdf_search_extent(ctx, F)
     check_size_hint_steps(ctx, F)
     check_conservative_preskip(ctx, F)
+    check_uniform_table_extent(ctx, F)
     check_views(ctx, F)
     check_forwarding(ctx, F)
     check_pass_through(ctx, F)
